@@ -154,8 +154,7 @@ func buildKinds() []kind {
 		{Name: "hist-shrink-refused-readonly", Expr: `(function(){var a=[1,2,3];Object.defineProperty(a,"1",{configurable:false,value:1});try{Object.defineProperty(a,"length",{value:0,writable:false})}catch(e){}return a})()`, Home: "array", Hostile: true},
 		{Name: "hist-frozen-then-written", Expr: `(function(){var a=Object.freeze([1,2]);a[0]=9;a[5]=1;a.length=0;try{a.push(1)}catch(e){}try{a.pop()}catch(e){}return a})()`, Home: "array", Hostile: true},
 		{Name: "hist-sealed-then-length-set", Expr: `(function(){var a=Object.seal([1,2,3]);a.length=1;try{a.length=5}catch(e){}try{a.shift()}catch(e){}return a})()`, Home: "array", Hostile: true},
-		{Name: "hist-grown-max-then-shrunk", Expr: `(function(){var a=[1,2];a.length=4294967295;try{a.push(1)}catch(e){}a.length=2;return a})()`, Home: "array", Hostile: true},
-		{Name: "hist-index-max", Expr: `(function(){var a=[1];a[4294967294]=1;a.length=3;a[4294967295]=2;return a})()`, Home: "array", Hostile: true},
+		{Name: "hist-grown-then-shrunk", Expr: `(function(){var a=[1,2];a.length=20000;a[19999]=1;try{a.push(1)}catch(e){}a.length=2;return a})()`, Home: "array", Hostile: true},
 		{Name: "hist-sparse-after-delete", Expr: `(function(){var a=[1,2,3,4];delete a[1];delete a[3];a.length=3;a.length=6;return a})()`, Home: "array", Hostile: true},
 		{Name: "hist-ro-length-then-push", Expr: `(function(){var a=[1];Object.defineProperty(a,"length",{writable:false});try{a.push(2)}catch(e){}a[5]=1;try{a.unshift(0)}catch(e){}return a})()`, Home: "array", Hostile: true},
 		{Name: "hist-length-odd-values", Expr: `(function(){var a=[1,2,3];a.length="2";a.length=new Number(1);try{a.length=1.5}catch(e){}try{a.length=-1}catch(e){}a.length={valueOf:function(){return 2}};return a})()`, Home: "array", Hostile: true},
@@ -165,7 +164,7 @@ func buildKinds() []kind {
 		{Name: "hist-date-set-nan", Expr: `(function(){var d=new Date(0);d.setTime(NaN);d.setFullYear(2000);d.setMonth(1e9);d.setYear(99);return d})()`, Home: "date", Hostile: true},
 		{Name: "hist-string-object-extras", Expr: `(function(){var s=new String("abc");s[5]="x";s.length=9;try{s[0]="z"}catch(e){}delete s[5];s.foo=1;return s})()`, Home: "string", Hostile: true},
 		{Name: "hist-arguments-redefined", Expr: `(function(a,b){Object.defineProperty(arguments,"0",{get:function(){return 5},configurable:true});a=2;Object.defineProperty(arguments,"length",{value:7});delete arguments[1];b=3;return arguments})(1,2,3)`, Hostile: true},
-		{Name: "hist-function-props", Expr: `(function(){var f=function(a,b){};f.prototype=null;try{f.length=9}catch(e){}delete f.prototype;Object.defineProperty(f,"name",{value:1,configurable:true});f.caller;return f})()`, Home: "function", Hostile: true},
+		{Name: "hist-function-props", Expr: `(function(){var f=function(a,b){};f.prototype=null;try{f.length=9}catch(e){}delete f.prototype;try{Object.defineProperty(f,"name",{value:1,configurable:true})}catch(e){}f.caller;return f})()`, Home: "function", Hostile: true},
 		{Name: "hist-error-props", Expr: `(function(){var e=new TypeError("m");delete e.message;e.name=undefined;e.stack;try{e.stack=1}catch(x){}Object.defineProperty(e,"message",{get:function(){return "g"}});return e})()`, Home: "error", Hostile: true},
 		{Name: "hist-proto-swapped", Expr: `(function(){var a=[1,2];var o=Object.create(a);o.length=5;o[7]=1;Array.prototype.push.call(o,1);return o})()`, Hostile: true},
 		{Name: "arguments-mapped", Expr: `(function(a,b){b=9;delete arguments[0];arguments.length=5;return arguments})(1,2,3)`, Hostile: true},
@@ -255,11 +254,22 @@ var throwerKinds = []kind{
 	{Name: "conv-throws-unconvertible", Expr: `({valueOf:function(){throw Object.create(null)},toString:function(){throw {toString:function(){return {}},valueOf:function(){return {}}}}})`, Hostile: true, Group: 97},
 }
 
+// shrinkKinds: arrays whose length went to 2^32-1 and back. While C02-ARRAY-SHRINK-LINEAR stands,
+// building them takes minutes without a polling point, so they are generated only once it is repaired.
+var shrinkKinds = []kind{
+	{Name: "hist-grown-max-then-shrunk", Expr: `(function(){var a=[1,2];a.length=4294967295;try{a.push(1)}catch(e){}a.length=2;return a})()`, Home: "array", Hostile: true, Group: 97},
+	{Name: "hist-index-max", Expr: `(function(){var a=[1];a[4294967294]=1;a.length=3;a[4294967295]=2;return a})()`, Home: "array", Hostile: true, Group: 97},
+}
+
 func kindList() []kind {
+	out := kinds
 	if !known("C02-THROW-UNPRINTABLE") {
-		return append(append([]kind{}, kinds...), throwerKinds...)
+		out = append(append([]kind{}, out...), throwerKinds...)
 	}
-	return kinds
+	if !known("C02-ARRAY-SHRINK-LINEAR") {
+		out = append(append([]kind{}, out...), shrinkKinds...)
+	}
+	return out
 }
 
 type hostStruct struct {
